@@ -119,6 +119,9 @@ class XGBoostSampler(MLSurrogateSampler):
             "Found loss values out of float32 limits, clipping them for XGBoost.",
             RuntimeWarning,
         )
+        # do not write into the caller's array (the calibrator lends its own loss history)
+        y = y.copy()
+
         if len(large_floats) > 0:
             y[large_floats] = MAX_FLOAT32 - EPS_FLOAT32
 
